@@ -96,3 +96,21 @@ Definition tk_tfld : list stm :=
 
 Definition tk_logline_date : list stm :=
   [SEv (Call "read_line"); SEv (Call "extracted_datetime"); SExit].
+
+Definition tk_sequence_search : list stm :=
+  [SEv (Call "start_run"); SEv (Rd "s_end"); SEv (Rd "started"); SIf [SIf [SEv (Rd "section_id"); SEv (Call "results_remove"); SEv (Call "def_reset")] [SEv (Call "end_run")]] []; SIf [SEv (Rd "started"); SIf [SEv (Call "def_start"); SEv (Rd "section_id")] [SEv (Rd "s_end"); SEv (Rd "section_id"); SEv (Call "def_stop"); SEv (Rd "s_end"); SIf [SEv (Call "def_start"); SEv (Rd "section_id")] []]; SEv (Call "results_add")] [SEv (Rd "started"); SEv (Rd "s_body"); SIf [SEv (Rd "section_id"); SEv (Call "body_run"); SIf [SEv (Rd "s_body"); SEv (Call "results_add")] []] []]].
+
+Definition tk_process_sequence_results : list stm :=
+  [SEv (Wr "filter"); SLoop [SIf [SExit] []; SEv (Rd "started"); SIf [SExit] []; SEv (Rd "s_end"); SIf [SExit] []; SEv (Call "end_run_empty"); SIf [SEv (Rd "section_id"); SEv (Rd "s_end"); SEv (Call "results_add")] [SEv (Rd "filter"); SIf [SEv (Wr "filter")] []; SEv (Rd "filter"); SEv (Rd "section_id")]]; SIf [SExit] []; SEv (Rd "filter"); SLoop [SLoop [SEv (Rd "filter"); SIf [SIf [SExit] []; SEv (Rd "filter"); SIf [SEv (Rd "filter"); SIf [SExit] []] []] []; SEv (Call "buffer_append"); SIf [SEv (Call "flush")] []]]].
+
+Definition tk_searchdef_run : list stm :=
+  [SEv (Rd "hint"); SIf [SEv (Call "hint_search"); SIf [SExit] []] []; SEv (Rd "patterns"); SLoop [SEv (Call "pattern_match"); SIf [SExit] []]; SExit].
+
+Definition tk_simple_search : list stm :=
+  [SEv (Call "def_run"); SIf [SExit] []; SEv (Call "new_result"); SEv (Call "buffer_append"); SIf [SEv (Call "flush")] []].
+
+Definition tk_flush_results_buffer : list stm :=
+  [SLoop [SEv (Rd "buffer"); STry [SEv (Rd "buffer"); SEv (Call "slice_buffer"); SEv (Call "put_result"); SLoop [SEv (Call "buffer_pop")]] [("IndexError", [])] [] []]].
+
+Definition tk_store_result : list stm :=
+  [SEv (Call "groups"); SIf [SLoop [SEv (Call "group"); SEv (Call "save_part")]] [SEv (Call "group"); SEv (Call "save_part")]].
